@@ -26,7 +26,8 @@ DefaultSkip == 80
 \*  skip    : skip_document_code set inline on this test case (None = not set)
 Tc(id, beh, code, dur, exp, out, stream, expect, t, det, skip) ==
     [id |-> id, beh |-> beh, code |-> code, dur |-> dur, exp |-> exp, out |-> out, stream |-> stream,
-     expect |-> expect, t |-> t, det |-> det, skip |-> skip]
+     expect |-> expect, t |-> t, det |-> det, skip |-> skip,
+     wait |-> 0]      \* `wait`: ticks scrut sleeps before it starts the command (not subject to any limit)
 
 \* a document
 \*  fmt   : "md" | "cram"
@@ -118,6 +119,8 @@ ExceedsAt(s, i, x) ==    \* the command at x, if reached, runs longer than an ap
     IN ~tc.det /\ tc.dur > 0 /\ ((tc.t # None /\ s.docs[i].fmt = "md" /\ tc.dur > tc.t) \/ (T # None /\ tc.dur > T))
 FirstLimit(s, i, x) == LET tc == Assembled(s, i)[x] IN
     MinDefined(IF s.docs[i].fmt = "md" THEN tc.t ELSE None, TotalLimit(s, i))
+RECURSIVE WaitUpTo(_, _, _)
+WaitUpTo(s, i, x) == IF x = 0 THEN 0 ELSE Assembled(s, i)[x].wait + WaitUpTo(s, i, x - 1)
 C14ok(s, o) ==
     \A i \in 1..Len(s.docs) :
         LET A == Assembled(s, i)
@@ -136,7 +139,7 @@ C14ok(s, o) ==
            \* "aborted": after a reported timeout the command does not go on running (no late marker)
            /\ o.late[i] = <<>>
            \* and the document stopped when the first limit was reached
-           /\ (\A x \in slow : reached(x) /\ Len(s.docs) = 1 => o.wallds[i] <= 10 * FirstLimit(s, i, x) + SlackDs)
+           /\ (\A x \in slow : reached(x) /\ Len(s.docs) = 1 => o.wallds[i] <= 10 * (FirstLimit(s, i, x) + WaitUpTo(s, i, x)) + SlackDs)
 
 \* ---- C15
 C15ok(s, o) ==
@@ -173,6 +176,10 @@ C20ok(s, o) ==
     /\ (~HasFault(s) =>
           LET failed == \E i \in 1..Len(s.docs) : \E x \in 1..Len(o.res[i]) : IsFailure(o.res[i][x])
           IN o.exit = IF failed THEN 50 ELSE 0)
+    \* a test case that ran into a limit makes the run fail
+    /\ (~HasFault(s) /\ (\E i \in 1..Len(s.docs) : \E x \in 1..Len(Assembled(s, i)) :
+            ExceedsAt(s, i, x) /\ \A y \in 1..(x - 1) : ~SkipsAt(s, i, y) /\ ~DiesAt(s, i, y) /\ ~ExceedsAt(s, i, y))
+          => o.exit = 50)
     \* the summary adds up (the driver parses the pretty renderer's summary line when there is one)
     /\ o.sumok
 
